@@ -70,6 +70,7 @@ def q_of(table, name, mode):
 
 
 _thr_cache = {}
+PARAMWATCH = [0]   # nuclear-transition calls whose arguments went through the parameter monitor (harness/paramwatch.h)
 TABLEWRAP = [0]   # kernel calls that went through the table interposer of the sanitizer builds (harness/tablewrap.h)
 
 
@@ -116,6 +117,9 @@ def run_specs(variant, lines, seed, n_iid, n_grid, hostile, timeout=7200, nshard
             if ln.startswith("{"):
                 try:
                     rec = json.loads(ln)
+                    if "paramwatch_transition_calls" in rec:
+                        PARAMWATCH[0] += rec["paramwatch_transition_calls"]
+                        continue
                     if "tablewrap_divdif_calls" in rec:
                         TABLEWRAP[0] += rec["tablewrap_divdif_calls"]
                         continue
